@@ -7,7 +7,10 @@ pub fn run(prop: &str, cx: &mut Ctx) {
         "C04" => crate::search_c04::run(cx),
         "C05" => crate::search_c05::run(cx),
         "C06" => crate::search_c06::run(cx),
+        "C07" => crate::search_c07::run(cx),
         "C08" => crate::search_c08::run(cx),
+        "C09" => crate::search_c09::run(cx),
+        "C10" => crate::search_c10::run(cx),
         "C11" => crate::search_c11::run(cx),
         "C12" => crate::search_c12::run(cx),
         "C13" => crate::search_c13::run(cx),
@@ -16,6 +19,7 @@ pub fn run(prop: &str, cx: &mut Ctx) {
         "C16" => crate::search_c16::run(cx),
         "C17" => crate::search_c17::run(cx),
         "C18" => crate::search_c18::run(cx),
+        "C19" => crate::search_c19::run(cx),
         "C20" => crate::search_c20::run(cx),
         _ => {
             let _ = cx;
@@ -29,7 +33,10 @@ pub fn replay(prop: &str, case: &serde_json::Value) -> String {
         "C04" => crate::search_c04::replay(case),
         "C05" => crate::search_c05::replay(case),
         "C06" => crate::search_c06::replay(case),
+        "C07" => crate::search_c07::replay(case),
         "C08" => crate::search_c08::replay(case),
+        "C09" => crate::search_c09::replay(case),
+        "C10" => crate::search_c10::replay(case),
         "C11" => crate::search_c11::replay(case),
         "C12" => crate::search_c12::replay(case),
         "C13" => crate::search_c13::replay(case),
@@ -38,6 +45,7 @@ pub fn replay(prop: &str, case: &serde_json::Value) -> String {
         "C16" => crate::search_c16::replay(case),
         "C17" => crate::search_c17::replay(case),
         "C18" => crate::search_c18::replay(case),
+        "C19" => crate::search_c19::replay(case),
         "C20" => crate::search_c20::replay(case),
         _ => format!("no replay handler for {} case {}", prop, case),
     }
